@@ -16,6 +16,7 @@ inductive GoVal where
   | slice (elem : String) (isNil : Bool) (xs : List GoVal)
   | map (isNil : Bool) (kvs : List (String × GoVal))   -- map[string]interface{}
   | nilPtr (typ : String)
+  | ptr (typ : String) (v : GoVal)             -- a non-nil pointer and what it points to
   deriving Inhabited, Repr
 
 namespace GoVal
@@ -29,7 +30,7 @@ def typeTag : GoVal → String
   | nil => "nil" | bool _ => "bool"
   | int b _ => "int" ++ toString b | uint b _ => "uint" ++ toString b | float b _ => "float" ++ toString b
   | str _ => "string" | named t _ => t
-  | slice e _ _ => "[]" ++ e | map _ _ => "map" | nilPtr t => "*" ++ t
+  | slice e _ _ => "[]" ++ e | map _ _ => "map" | nilPtr t => "*" ++ t | ptr t _ => "*" ++ t
 
 mutual
 /-- `reflect.DeepEqual` on this fragment: identical dynamic types, then values; a nil slice/map
@@ -45,6 +46,7 @@ def deepEq : GoVal → GoVal → Bool
   | .slice e1 n1 a, .slice e2 n2 b => e1 == e2 && n1 == n2 && deepEqList a b
   | .map n1 a, .map n2 b => n1 == n2 && a.length == b.length && deepEqSub a b
   | .nilPtr t1, .nilPtr t2 => t1 == t2
+  | .ptr t1 a, .ptr t2 b => t1 == t2 && deepEq a b
   | _, _ => false
 termination_by structural x => x
 def deepEqList : List GoVal → List GoVal → Bool
@@ -76,7 +78,8 @@ def valEq : GoVal → GoVal → Bool
   | .named _ a, b => (match b with | .str c => a == c | .named _ c => a == c | _ => false)
   | .slice _ n a, b => (match b with | .slice _ m c => n == m && valEqList a c | _ => false)
   | .map n a, b => (match b with | .map m c => n == m && a.length == c.length && valEqSub a c | _ => false)
-  | .nilPtr _, b => (match b with | .nilPtr _ => true | .nil => true | _ => false)
+  | .nilPtr t, b => (match b with | .nilPtr u => t == u | _ => false)   -- typed nils are equal only to typed nils of the same type
+  | .ptr _ a, b => (match b with | .ptr _ c => valEq a c | _ => false)
 termination_by structural x => x
 def valEqList : List GoVal → List GoVal → Bool
   | [], [] => true
@@ -98,6 +101,7 @@ def isZero : GoVal → Bool
   | slice _ isNil _ => isNil
   | map isNil _ => isNil
   | nilPtr _ => true
+  | ptr _ _ => false       -- a non-nil pointer is never the zero value of its type, whatever it points to
 
 /-- wrap an integer to `bits` bits, two's complement -/
 def wrapInt (bits : Nat) (v : Int) : Int :=
